@@ -517,16 +517,16 @@ class AttributeCollection(MutableMapping[int, Attribute]):
                     'parser',
                 )
                 return left
-            # Attributes not in TREAT_AS_WITHDRAW or DISCARD fall through to this log
-            # This catches implementation gaps - if this fires, add aid to one of the lists
-            log.debug(
-                lambda: (
-                    'invalid flag for attribute {} (flag 0x{:02X}, aid 0x{:02X}) unspecified (should not happen)'.format(
+            # RFC 7606 section 3.c: attribute flags in conflict with the type code are treat-as-withdraw.
+            # Dropping the attribute and announcing the route without it is not an option
+            if not (kls and kls.TREAT_AS_WITHDRAW):
+                log.debug(
+                    lambda: 'invalid flag for attribute {} (flag 0x{:02X}, aid 0x{:02X}) treat as withdraw'.format(
                         Attribute.CODE.names.get(aid, 'unset'), flag, aid
-                    )
-                ),
-                'parser',
-            )
+                    ),
+                    'parser',
+                )
+                self.add(TreatAsWithdraw(aid))
             return left
 
         # it is an unknown transitive attribute we need to pass on
